@@ -328,13 +328,21 @@ def gen_case(rng, thorough: bool, i: int) -> dict:
             if i % 6 == 1:      # directed: the loop-count limit is met with equality by valid assignments
                 knobs["max_loops_per_spatial_dimension"] = 1
                 p["lb_op"] = ""
+    if i % 6 == 4:
+        # directed: a lower-bound (>=, >, ==) loop-bound constraint on a spatial loop that has two symbolic enclosing tiles of the
+        # same rank variable (three memory levels, fanout at the MAC array) — the padding of not-yet-enumerated outer tiles matters
+        p = ML.gen_params(rng, n_einsums=1, kind="matmuls", levels=3, allow_fanout=False, finite_glb=True)
+        p["workload"].update(M=rng.choice([8, 12]), KN=rng.choice([4, 6]))
+        p.update(fanout=4, fanout_at="mac", bits=8, glb_size=96 * 8, lb_size=8 * 8 * rng.choice([1, 2]), lb_expr="m", min_usage=0)
+        p["lb_op"], p["lb_val"] = rng.choice([(">=", 2), (">=", 2), ("==", 2), (">", 1)])
+        knobs = {}
     if rng.random() < 0.3:
         knobs["max_fused_loops"] = rng.choice([0, 1, 2])
     mets = rng.choice([["ENERGY"], ["LATENCY"], ["ENERGY", "LATENCY"], ["ENERGY_DELAY_PRODUCT"], ["ENERGY", "LATENCY", "RESOURCE_USAGE"]])
     if i % 6 == 1:
         mets = rng.choice([["ENERGY", "LATENCY"], ["LATENCY"], ["ENERGY", "LATENCY", "RESOURCE_USAGE"]])
     return {"params": p, "metrics": mets, "imperfect": rng.random() < 0.35, "knobs": knobs, "seed": rng.randrange(1 << 40),
-            "n_templates": (4 if big else 6) if thorough else (2 if big else (8 if i % 6 == 1 else 3)),
+            "n_templates": (4 if big else 6) if thorough else (2 if big else (12 if i % 6 == 4 else 8 if i % 6 == 1 else 3)),
             "opts": {"max_assignments": 120000 if thorough else 20000, "max_goal_points": 3000 if thorough else 800}}
 
 
